@@ -645,8 +645,10 @@ func detachOn[T any](bufferSize int, onUpstream, onDownstream bool) func(Observa
 			}
 
 			return func() {
+				// deferred: the queue must be closed even if an upstream teardown panics
+				defer stop()
+
 				subscriptions.Unsubscribe()
-				stop()
 			}
 		})
 	}
